@@ -56,15 +56,16 @@ def Op.fromWithNot (s : Str) (not : Bool) : Option Op :=
   | some op => if not then some op.negate else some op
   | none => none
 
-/-- `Parser::negate_expr_op`. -/
+def LogicalOp.dual : LogicalOp → LogicalOp
+  | .And => .Or
+  | .Or => .And
+
+/-- `Parser::negate_expr_op` (after the D07 fix): De Morgan over connectives, operator negation at
+    comparisons; operands of a comparison are values and are left alone. -/
 def Expr.negate : Expr → Expr
-  | .field m f => .field m f
-  | .val m v => .val m v
-  | .func0 m f => .func0 m f
-  | .func m f l args => .func m f l.negate args
-  | .arith l op r => .arith l.negate op r.negate
-  | .cmp l op r => .cmp l.negate op.negate r.negate
-  | .logic l op r => .logic l.negate op r.negate
+  | .logic l op r => .logic l.negate op.dual r.negate
+  | .cmp l op r => .cmp l op.negate r
+  | e => e
 
 def skipNots : (ts : List Lexem) → Bool × Rest ts
   | .not_ :: r => let (b, r') := skipNots r; (!b, r'.lift (by simp))
@@ -191,7 +192,7 @@ def parseCond (bs : Bool) (ts : List Lexem) : PR true Expr ts :=
     match ht3 : t3 with
     | .op s :: t4 =>
       have h4 : t4.length + 1 = t3.length := by lenomega
-      if s == ofS "between" then
+      if lowerStr s == ofS "between" then
         match parseAddSub bs t4 with
         | ⟨.error e, r, hr, _⟩ => bad e r (by lenomega)
         | ⟨.ok lb, t5, h5, _⟩ =>
@@ -201,8 +202,8 @@ def parseCond (bs : Bool) (ts : List Lexem) : PR true Expr ts :=
             match parseAddSub bs t6 with
             | ⟨.error e, r, hr, _⟩ => bad e r (by lenomega)
             | ⟨.ok rb, t7, h7, _⟩ =>
-              let le := Expr.cmp left (if not then .Lte else .Gte) lb
-              let re := Expr.cmp left (if not then .Gte else .Lte) rb
+              let le := Expr.cmp left (if not then .Lt else .Gte) lb
+              let re := Expr.cmp left (if not then .Gt else .Lte) rb
               fin (.logic le (if not then .Or else .And) re) t7 (by lenomega)
           | [] => bad (.msg "Error parsing BETWEEN operator") [] (by simp)
           | _ :: t6 =>
@@ -303,7 +304,8 @@ def leafP (bs : Bool) (minus : Bool) (ts : List Lexem) : PR true Expr ts :=
   let errS : PErr := .msg "Error parsing expression, expecting string"
   match ts with
   | [] => ⟨.error errS, [], by simp, fun _ h => absurd rfl h⟩
-  | .str s :: r | .raw s :: r =>
+  | .str s :: r => ⟨.ok (.val minus s), r, by simp, fun _ _ => by simp⟩   -- a quoted literal is always text (D02 fix)
+  | .raw s :: r =>
     match Field.ofStr? s with
     | some f => ⟨.ok (.field minus f), r, by simp, fun _ _ => by simp⟩
     | none =>
